@@ -53,7 +53,10 @@ def _gen_exact(rng, N, length, uden=8):
     size = 0
     for _ in range(length):
         x = rng.random()
-        if size == 0 or x < 0.35:
+        if size > 0 and x < 0.05:
+            ops.append(("clear",))            # clear() is part of the buffer API (C09); priorities must be forgotten too
+            size = 0
+        elif size == 0 or x < 0.35:
             w = rng.choice([1, N, rng.randint(1, N)])
             ops.append(("add", w))
             size = min(N, size + w)
@@ -75,7 +78,7 @@ def run(ctx):
 
     quick = ctx.quick
     rng = random.Random(ctx.seed)
-    ctx.mc("PER", "PER_MCq.cfg" if quick else "PER_MC.cfg", must_cover=["AddAny|Add", "UpdateAny|Update", "SampleAny|Sample"])
+    ctx.mc("PER", "PER_MCq.cfg" if quick else "PER_MC.cfg", must_cover=["AddAny|Add", "UpdateAny|Update", "SampleAny|Sample", "Clear"])
 
     # ---- exact mode
     traces = []
@@ -118,7 +121,10 @@ def run(ctx):
         size = 0
         for _ in range(rng.randint(4, 30)):
             x = rng.random()
-            if size == 0 or x < 0.3:
+            if size > 0 and x < 0.04:
+                ops.append(("clear",))
+                size = 0
+            elif size == 0 or x < 0.3:
                 w = rng.choice([1, N, rng.randint(1, N)])
                 ops.append(("add", w))
                 size = min(N, size + w)
